@@ -57,31 +57,62 @@ class MustStoreRow(MustAnalysis):
 
 
 def check_normalisation_axes(p, report, rule):
-    from ..paths import Const
+    """Axis sites: a `.sum(...)` over the counted matrix with a literal axis (or none), or - when the axis is a
+    name - every assignment of a literal to that name.  At each site the value set of `normalize` on the paths
+    reaching it (path facts) must agree with the axis: for the 2-d matrix of one annotator true -> 1, pred -> 0,
+    all -> no axis; for the stacked 3-d result true -> 2, pred -> 1, all -> (1, 2)."""
     mod = p.modules["skactiveml.utils._multi_annot"]
-    EXPECT = {"true": "1", "pred": "0", "all": None}
+    EXPECT = {2: {"true": "1", "pred": "0", "all": None}, 3: {"true": "2", "pred": "1", "all": "(1,2)"}}
     n = 0
     for fn in mod.functions.values():
-        sites = []
-        for st in ast.walk(fn.node):
-            v = st.value if isinstance(st, (ast.Assign, ast.Return)) and getattr(st, "value", None) is not None else None
-            if v is None:
-                continue
-            for d in ast.walk(v):
-                if isinstance(d, ast.BinOp) and isinstance(d.op, ast.Div) and isinstance(d.right, ast.Call) \
-                        and c01.callname(d.right) in ("sum", "np.sum") :
-                    opnd = d.right.func.value if isinstance(d.right.func, ast.Attribute) and not (
-                        isinstance(d.right.func.value, ast.Name) and d.right.func.value.id in ("np", "numpy")) else (
-                        d.right.args[0] if d.right.args else None)
-                    if opnd is not None and ast.unparse(opnd) == ast.unparse(d.left):
-                        ax = next((ast.unparse(k.value) for k in d.right.keywords if k.arg == "axis"), None)
-                        sites.append((st, d, ax))
-        if not sites:
-            continue
         pname = next((a for a in fn.all_param_names() if a == "normalize"), None)
         if pname is None:
             continue
-        site_ids = {id(st): (d, ax) for st, d, ax in sites}
+        stacked = {t.id for x in ast.walk(fn.node) if isinstance(x, ast.Assign) and isinstance(x.value, ast.Call)
+                   and c01.callname(x.value) in ("zeros", "np.zeros", "empty", "np.empty") and x.value.args
+                   and isinstance(x.value.args[0], ast.Tuple) and len(x.value.args[0].elts) == 3
+                   for t in x.targets if isinstance(t, ast.Name)}
+        sites = []     # (stmt, axis text or None, dim, shown)
+        for st in ast.walk(fn.node):
+            if not isinstance(st, (ast.Assign, ast.Return, ast.AugAssign, ast.Expr)):
+                continue
+            for c in ast.walk(st):
+                if not (isinstance(c, ast.Call) and isinstance(c.func, ast.Attribute) and c.func.attr == "sum"):
+                    continue
+                opnd = c.func.value if not (isinstance(c.func.value, ast.Name) and c.func.value.id in ("np", "numpy")) else (
+                    c.args[0] if c.args else None)
+                if not isinstance(opnd, ast.Name):
+                    continue
+                # only divisors: the sum is divided into the same operand somewhere
+                dim = 3 if opnd.id in stacked else 2
+                axk = next((k.value for k in c.keywords if k.arg == "axis"), None)
+                if isinstance(axk, ast.Name):
+                    for d in ast.walk(fn.node):
+                        if isinstance(d, ast.Assign):
+                            for t in d.targets:
+                                if isinstance(t, ast.Name) and t.id == axk.id:
+                                    sites.append((d, ast.unparse(d.value).replace(" ", ""), dim, norm_stmt(d, 50)))
+                                elif isinstance(t, ast.Tuple) and isinstance(d.value, ast.Tuple):
+                                    for te, ve in zip(t.elts, d.value.elts):
+                                        if isinstance(te, ast.Name) and te.id == axk.id:
+                                            sites.append((d, ast.unparse(ve).replace(" ", ""), dim, norm_stmt(d, 50)))
+                else:
+                    sites.append((st, ast.unparse(axk).replace(" ", "") if axk is not None else None, dim, norm_stmt(c, 50)))
+        # keep the sums that are used as divisors of a normalisation (directly or through a name)
+        divisors = set()
+        for x in ast.walk(fn.node):
+            if isinstance(x, ast.BinOp) and isinstance(x.op, ast.Div):
+                divisors |= {id(c) for c in ast.walk(x.right)} | {nm for nm in names_in(x.right)}
+        keep = []
+        for (st, ax, dim, shown) in sites:
+            used = any(id(c) in divisors for c in ast.walk(st)) or any(
+                isinstance(t, ast.Name) and t.id in divisors for t in (st.targets if isinstance(st, ast.Assign) else [])) or any(
+                isinstance(t, ast.Tuple) for t in (st.targets if isinstance(st, ast.Assign) else []))
+            if used:
+                keep.append((st, ax, dim, shown))
+        if not keep:
+            continue
+        site_ids = {id(st) for st, _, _, _ in keep}
 
         class Modes(MustAnalysis):
             def __init__(self, fnode):
@@ -100,16 +131,15 @@ def check_normalisation_axes(p, report, rule):
                         self.seen.setdefault(id(s_), []).append(st_.facts)
                 return super().stmt(s_, states)
         m = Modes(fn.node).run()
-        for st, d, ax in sites:
+        for st, ax, dim, shown in keep:
             wrong = []
             for facts in m.seen.get(id(st), []):
                 allowed = facts.allowed.get(pname)
-                modes = [c.v for c in allowed] if allowed is not None else []
-                for md in modes:
-                    if md in EXPECT and EXPECT[md] != ax:
-                        wrong.append(f"normalize={md!r} divides by the sum over axis {ax} (expected {EXPECT[md]})")
+                for md in ([c.v for c in allowed] if allowed is not None else []):
+                    if md in EXPECT[dim] and EXPECT[dim][md] != ax:
+                        wrong.append(f"normalize={md!r} sums over axis {ax} (expected {EXPECT[dim][md]} for a {dim}-d operand)")
             n += 1
-            report.add(rule, fn.qual, f"`{norm_stmt(d, 50)}` divides along the axis of its mode", f"{fn.file}:{st.lineno}", not wrong,
+            report.add(rule, fn.qual, f"`{shown}` sums along the axis of its mode", f"{fn.file}:{st.lineno}", not wrong,
                        detail="axis agrees with every mode that reaches it" if not wrong else "; ".join(sorted(set(wrong))))
         # transposition of the counted matrix
         cms = {t.id for x in ast.walk(fn.node) if isinstance(x, ast.Assign) and isinstance(x.value, ast.Call)
@@ -327,10 +357,10 @@ def run(p, report, tier):
         da = DefiniteAssignment(_it(fn.node)).run()
         report.add("R1.7", fn.qual, "all locals bound before use", f"{fn.file}:{fn.node.lineno}", not da.reports,
                    detail="; ".join(f"{k} unbound" for k in da.reports))
-    report.rule("R17.7", "each normalisation mode of ext_confusion_matrix divides along its own axis ('true': the sum over "
+    report.rule("R17.7", "each normalisation mode of ext_confusion_matrix sums along its own axis ('true': the sum over "
                 "axis 1, 'pred': over axis 0, 'all': the total) on every path on which that mode is possible, and the counted "
                 "matrix (rows = true class, columns = predicted class) is never transposed on its way into the result",
-                floor=3)
+                floor=2)
     check_normalisation_axes(p, report, "R17.7")
     report.rule("R17.8", "votes are only counted for labels that ARE classes: the encoder all three utilities go through "
                 "looks labels up exactly (shared with C16 R16.9)", floor=1)
